@@ -3,6 +3,7 @@ package props
 import (
 	"encoding/binary"
 	"math/rand"
+	"strings"
 
 	"gaeaverif/harness/core"
 
@@ -160,6 +161,34 @@ func (g *c38Gen) prepareSQL(nparams int) []byte {
 	return append([]byte{mysql.ComStmtPrepare}, s...)
 }
 
+// c38SQLFrags are the pieces malformed statement texts are built from: comment
+// introducers with and without the blank / newline / terminator they need, every
+// quote character unterminated, hint and version-comment openers, separators, NUL
+// and bytes that are not UTF-8, and a few words so that some texts reach the planner.
+var c38SQLFrags = []string{
+	"--", "--1", "--x", "-- ", "-- x\n", "--\n", "--\t", "#", "#x\n", "/*", "*/", "/**/", "/*!", "/*!40101 ", "/*!40101", "/*+ ", "/* x */",
+	"/*master*/", "/*!999999 x */", "'", "\"", "`", "\\", "\\'", "(", ")", ";", ";;", ",", ".", "?", "@", "@@", "@`", "0x", "x'", "b'", "N'", "_utf8",
+	"\x00", "\xff", "\xc3", "\xe4\xb8", " ", "\n", "\t", "\r", "select", "SELECT", "1", "from", "t", "where", "a=", "in", "set", "use", "show", "insert", "into",
+	"values", "update", "delete", "begin", "commit", "explain", "prepare", "execute", "limit", "-", "+", "!", "~", "1e", "1.", ".1", "9223372036854775808",
+}
+
+// garbageSQL is a statement text of 1…7 fragments, sometimes opened by a
+// leading-comment form (what StripLeadingComments / Preview see first).
+func (g *c38Gen) garbageSQL() string {
+	var b strings.Builder
+	if g.intn(3) == 0 {
+		b.WriteString(c38Pick(g, []string{"--", "--1", "--x", "-- ", "-- c\n", "#", "#c\n", "/*", "/**/", "/* c */", "/*!", "/*!40101 ", "/*+ x */", " ", "\n", ";"}))
+	}
+	n := 1 + g.intn(7)
+	for i := 0; i < n; i++ {
+		b.WriteString(c38Pick(g, c38SQLFrags))
+		if g.intn(3) == 0 {
+			b.WriteByte(' ')
+		}
+	}
+	return b.String()
+}
+
 var c38Unknown = []byte{0, 5, 6, 7, 8, 9, 10, 11, 12, 13, 15, 16, 17, 18, 19, 20, 21, 28, 30, 31, 32, 0x7f, 0x80, 0xfe, 0xff}
 
 type c38Stmt struct {
@@ -227,7 +256,11 @@ func (g *c38Gen) script() (pkts [][]byte, kinds []string) {
 		case choice < 17:
 			add("initdb", append([]byte{mysql.ComInitDB}, c38Pick(g, []string{"db1", "DB1", "db2", "information_schema", "INFORMATION_SCHEMA", "Information_Schema", "information_schemb", ""})...))
 		case choice < 18:
-			add("query", append([]byte{mysql.ComQuery}, c38Pick(g, []string{"select 1", "set autocommit=1", "show databases", "selec", ""})...))
+			if g.intn(3) == 0 {
+				add("query", append([]byte{mysql.ComQuery}, c38Pick(g, []string{"select 1", "set autocommit=1", "show databases", "selec", ""})...))
+			} else {
+				add("query", append([]byte{mysql.ComQuery}, g.garbageSQL()...))
+			}
 		case choice < 19:
 			if g.intn(2) == 0 {
 				add("setoption", []byte{mysql.ComSetOption, byte(g.intn(2)), 0})
